@@ -191,32 +191,49 @@ func c04R1(c *Ctx) {
 		for _, call := range sc {
 			w := q.Escapes(nil, isExactly(call), isExactly(lo), nil)
 			c.Check(w == nil, "C04.R1", fn.Key()+": "+calleeName(info, call)+" only after LoadOrStore", p.Pos(call), fn.Key(), "must-pass: entry → pendingPods.LoadOrStore → call", "path: "+p.describePath(w))
-			c.Require("C04.R1", fn.Key()+": "+calleeName(info, call)+" only when the pod was not already pending", fn, call, "!"+loaded.Name(), nil)
+			c.RequireF("C04.R1", fn.Key()+": "+calleeName(info, call)+" only when the pod was not already pending", fn, call, "!"+loaded.Name(), func(e *FactEngine) (*Formula, error) {
+				return mkNot(e.Cond(identFor(info, loaded))), nil
+			})
 		}
-		// (b) loaded branch returns the retryable error
-		okErr := false
+		// (b) the loaded path ends in the retryable error: the ErrPodIsProcessing value is built only
+		// under the loaded flag, and every path from LoadOrStore that follows the loaded edges builds
+		// it before the function exits ((a) already shows nothing else happens on that path)
+		var errLit ast.Node
 		ast.Inspect(fn.Decl.Body, func(n ast.Node) bool {
-			is, ok := n.(*ast.IfStmt)
-			if !ok || identObj(info, is.Cond) != loaded {
-				return true
-			}
-			for _, s := range is.Body.List {
-				if r, ok := s.(*ast.ReturnStmt); ok && len(r.Results) == 2 {
-					ast.Inspect(r.Results[1], func(m ast.Node) bool {
-						if kv, ok := m.(*ast.KeyValueExpr); ok {
-							if id, ok := kv.Key.(*ast.Ident); ok && id.Name == "Code" {
-								if o := identObjSel(info, kv.Value); o != nil && o.Name() == "ErrPodIsProcessing" {
-									okErr = true
-								}
-							}
-						}
-						return true
-					})
+			if kv, ok := n.(*ast.KeyValueExpr); ok && errLit == nil {
+				if id, ok := kv.Key.(*ast.Ident); ok && id.Name == "Code" {
+					if o := identObjSel(info, kv.Value); o != nil && o.Name() == "ErrPodIsProcessing" {
+						errLit = kv
+					}
 				}
 			}
 			return true
 		})
-		c.Check(okErr, "C04.R1", fn.Key()+": concurrent request rejected with ErrPodIsProcessing", p.Pos(lo), fn.Key(), "if loaded { return …Code: ErrPodIsProcessing }", "no such return under the loaded flag")
+		if errLit == nil {
+			c.Bad("C04.R1", fn.Key()+": concurrent request rejected with ErrPodIsProcessing", p.Pos(lo), fn.Key(), "if loaded { return …Code: ErrPodIsProcessing }", "no error value with that code in the handler")
+		} else {
+			c.RequireF("C04.R1", fn.Key()+": ErrPodIsProcessing only for a request that found the pod pending", fn, errLit, loaded.Name(), func(e *FactEngine) (*Formula, error) {
+				return e.Cond(identFor(info, loaded)), nil
+			})
+			qb := NewPathQuery(p, fn, nil)
+			fe := NewFactEngine(p, fn)
+			loadedAtom := fe.Cond(identFor(info, loaded))
+			sawEdge := false
+			qb.Prune = func(cond ast.Expr, takeTrue bool) bool {
+				f := fe.boolForm(cond, fe.fnScope())
+				if f.k == fAtom && loadedAtom.k == fAtom && f.atom == loadedAtom.atom {
+					sawEdge = true
+					return !takeTrue
+				}
+				if f.k == fNot && f.sub[0].k == fAtom && loadedAtom.k == fAtom && f.sub[0].atom == loadedAtom.atom {
+					sawEdge = true
+					return takeTrue
+				}
+				return false
+			}
+			w := qb.Escapes(isExactly(lo), nil, containsNode(func(n ast.Node) bool { return n == errLit }), nil)
+			c.Check(w == nil && sawEdge, "C04.R1", fn.Key()+": concurrent request rejected with ErrPodIsProcessing", p.Pos(lo), fn.Key(), "must-pass: LoadOrStore → (loaded) → build ErrPodIsProcessing → exit", "path: "+p.describePath(w))
+		}
 		// (c) deferred Delete with the same key, registered on the not-loaded path before any state call
 		var deferDel *ast.DeferStmt
 		ast.Inspect(fn.Decl.Body, func(n ast.Node) bool {
@@ -233,7 +250,9 @@ func c04R1(c *Ctx) {
 			c.Bad("C04.R1", fn.Key()+": deferred pendingPods.Delete(key)", p.Pos(lo), fn.Key(), "defer … pendingPods.Delete(<same key>)", "not found")
 			continue
 		}
-		c.Require("C04.R1", fn.Key()+": the pending marker is removed only by the request that set it", fn, deferDel, "!"+loaded.Name(), nil)
+		c.RequireF("C04.R1", fn.Key()+": the pending marker is removed only by the request that set it", fn, deferDel, "!"+loaded.Name(), func(e *FactEngine) (*Formula, error) {
+			return mkNot(e.Cond(identFor(info, loaded))), nil
+		})
 		for _, call := range sc {
 			w := q.Escapes(nil, isExactly(call), isExactly(deferDel), nil)
 			c.Check(w == nil, "C04.R1", fn.Key()+": defer Delete registered before "+calleeName(info, call), p.Pos(call), fn.Key(), "must-pass: entry → defer pendingPods.Delete → call", "path: "+p.describePath(w))
@@ -263,7 +282,7 @@ func c04R1(c *Ctx) {
 							isH = true
 						}
 					}
-					if !isH {
+					if !isH && !p.deadInView(fn) {
 						others = append(others, fn.Key()+"."+sel.Sel.Name)
 					}
 				case "Range", "Load":
